@@ -110,7 +110,14 @@ class MemoryTransport(asyncio.Transport):
             return
         if self.fail_after is not None:
             if self.fail_after <= 0:
-                self._fatal_error(BrokenPipeError(32, "Broken pipe"))
+                # (a failing send() reports whatever lost the peer - not always a ConnectionError)
+                self._fatal_error({
+                    "unreach": OSError(113, "No route to host"),
+                    "netdown": OSError(100, "Network is down"),
+                    "timedout": TimeoutError(110, "Connection timed out"),
+                    "aborted": ConnectionAbortedError(103, "Software caused connection abort"),
+                    "reset": ConnectionResetError(104, "Connection reset by peer"),
+                }.get(getattr(self, "fail_how", "pipe"), BrokenPipeError(32, "Broken pipe")))
                 return
             self.fail_after -= 1
         data = bytes(data)
@@ -382,9 +389,10 @@ class AioConn:
     def accept_bytes(self, n: int) -> None:
         self.transport.client_accept_bytes(n)
 
-    def fail_writes(self, after_n: int = 0) -> None:
+    def fail_writes(self, after_n: int = 0, how: str = "pipe") -> None:
         self.peer_lost = True
         self.transport.fail_after = after_n
+        self.transport.fail_how = how
 
     @property
     def server_gone(self) -> bool:
